@@ -49,6 +49,7 @@ theorem env_SelectAfter_succ (rnd : Nat → Nat) (c : Bool) (d : Int) (st : Send
     (sendEnv rnd c).SelectAfter d st = .ok (true, { st with waits := st.waits ++ [d], rounds := k }) := by
   simp only [sendEnv, h]
 
+theorem env_SockClose (rnd : Nat → Nat) (c : Bool) : (sendEnv rnd c).SockClose = fun st => .ok (none, st) := rfl
 theorem env_SockWrite (rnd : Nat → Nat) (c : Bool) (b : Bytes) (st : SendState) :
     (sendEnv rnd c).SockWrite b st = .ok (none, { st with writes := st.writes ++ [b] }) := rfl
 
@@ -250,7 +251,7 @@ theorem sendMessage_broadcast_run (iface : Go.NetInterface) (pkt src dst : Bytes
   have hl := send_loop rnd c pkt src dst st.rounds fuel retransBase { st with opened := st.opened ++ [none] } rfl hf
   have hbase : (700000000 : Int) = Int.ofNat retransBase := rfl
   simp only [Gen.dclient.sendMessage, StateT.run, bind, StateT.bind, Except.bind, hs, Option.isNone_none,
-    Bool.not_true, Bool.false_eq_true, if_false, hbase, hl, pure, StateT.pure, Except.pure]
+    Bool.not_true, Bool.false_eq_true, if_false, hbase, hl, pure, StateT.pure, Except.pure, env_SockClose]
 
 theorem sendMessage_broadcast (iface : Go.NetInterface) (pkt src dst : Bytes) (rnd : Nat → Nat) (n fuel : Nat)
     (hb : src = [] ∨ dst = []) (hf : n + 1 < fuel) :
